@@ -204,12 +204,16 @@ def generate(rng, n, tier, cast_p=0.0, hostile=False):
     g = Gen(rng, pct_strings=True, max_depth=3)
     cases = []
     if cast_p == 0.0 and not hostile:
+        from props import corners
+        cases.extend(corners.repr_cases())
         for _ in range(max(50, n // 4)):
             cases.append(repr_case(rng, g))
     # the empty schema and single rules first
     cases.append(make_case([], {"a": 1}))
     while len(cases) < n:
         k = rng.choice([0, 1, 2, 2, 3, 3, 4, 5] if tier == "quick" else [0, 1, 2, 3, 4, 5, 6, 8])
+        if rng.random() < 0.02:
+            k = rng.choice([10, 11, 12])      # two-digit rule numbers in the report
         rules = [rc.gen_rule(g, cast_p=cast_p, hostile_p=0.0 if hostile else 0.03) for _ in range(k)]
         # a common document grown along one of the rule paths
         base_rule = rng.choice(rules) if rules else None
